@@ -163,6 +163,9 @@ def _pick_crash(r, scale):
     elif t < 0.42:
         c['when'] = 'interrupt'  # the process is interrupted by an exception that unwinds the stack, then ends
         c['tear'] = None
+        if r.random() < 0.5:
+            # if operation k opens a file for writing, the interrupt arrives inside a write, after that many units
+            c['wlimit'] = r.choice([0, 1, 9, 60, 400])
     return c
 
 
